@@ -2,7 +2,7 @@
 import copy
 import json
 
-from vlib import conclude
+from vlib import conclude, ToolTrouble
 import drvlib as D
 import harness_drv as H
 
@@ -95,6 +95,33 @@ def real_reformat_pairs(ctx):
             ctx.nontrivial(('real-reformat', text))
 
 
+def real_twin_pairs(ctx):
+    """a schedule built by the tree's own pass-group parser in which the same pass and argument is listed with and without
+    max-transforms (as all.json lists clang passes), an undoing pass in between: the unlimited entry meets the very content the
+    limited one started from and must not be answered with the limited one's result"""
+    import worldlib as W
+    text = 'int keep1;\nint x;\nint y;\nint z;\nint w;\n'
+    for first in ([{'pass': 'lines', 'arg': 'None', 'max-transforms': 1}, {'pass': 'lines', 'arg': 'None'}],
+                  [{'pass': 'lines', 'arg': 'None', 'max-transforms': 1}, {'pass': 'lines', 'arg': 'None', 'max-transforms': 2}, {'pass': 'lines', 'arg': 'None'}],
+                  [{'pass': 'blank', 'max-transforms': 1}, {'pass': 'lines', 'arg': 'None', 'max-transforms': 1}, {'pass': 'lines', 'arg': 'None'}]):
+        outs = {}
+        for nc in (False, True):
+            scen = {'name': 'twin-revisit', 'tree': {'a.c': {'text': text}}, 'test_cases': ['a.c'], 'predicate': 'grep -q keep1 a.c',
+                    'group_dict': {'first': first, 'main': [{'pass': 'blank'}], 'last': []},
+                    'splice': [['first', i, {'name': 'LinePass', 'arg': 'restore=' + text}] for i in range(len(first) - 1, 0, -1)],
+                    'groups': {}, 'N': 1, 'timeout': 5, 'cfg': {'no_cache': nc}, 'external': {'topformflat': 'standin:topformflat'}}
+            obs = W.run(ctx, scen)
+            ctx.count()
+            outs[nc] = (obs['outcome'], (obs.get('after') or {}).get('a.c'))
+        if outs[False] != outs[True]:
+            ctx.report('cache-changes-the-result:limited-and-unlimited-entry', f'schedule {first} (parsed by parse_pass_group_dict, the original text put back in between): with the table {outs[False]}, with --no-cache {outs[True]}',
+                       {'kind': 'real-twin-pair', 'first': first, 'text': text})
+        elif outs[True][0] != 'ok':
+            raise ToolTrouble(f'twin pair did not run: {outs[True]}')
+        else:
+            ctx.nontrivial(('real-twin', json.dumps(first)))
+
+
 def real_bytes_pairs(ctx):
     """the replay writes back exactly the bytes a run of the pass left: a test case with carriage returns, form feeds and
     bytes outside ASCII, a test that needs them, the same pass run twice (the second run is a replay)"""
@@ -150,6 +177,10 @@ def run(ctx):
             real_bytes_pairs(ctx)
             print('replayed ->', 'fails' if ctx.violations else 'holds')
             return 1 if ctx.violations else 0
+        if obj.get('kind') == 'real-twin-pair':
+            real_twin_pairs(ctx)
+            print('replayed ->', 'fails' if ctx.violations else 'holds')
+            return 1 if ctx.violations else 0
         if obj.get('kind') == 'real-pair':
             real_reformat_pairs(ctx)
             print('replayed ->', 'fails' if ctx.violations else 'holds')
@@ -167,6 +198,7 @@ def run(ctx):
     hits2, _ = run_pairs(ctx, scens(ctx, n // 4, files=(2, 3)), diffs, judge_multi=True)
     real_reformat_pairs(ctx)
     real_bytes_pairs(ctx)
+    real_twin_pairs(ctx)
     ctx.sample({'scenario_key': D.scen_key(rows[0][0]), 'with_cache': rows[0][2]})
 
     def search(budget):
